@@ -284,6 +284,56 @@ V("C17/walker/verus", ["C17", "C04"], "walker.vspec",
   "for stacks of ANY length and any interleaving of next / prev / start / end: the walker's private board is always position number board_pos of the one sequence of positions the stack records (each entry applied to / undone from exactly the position it was recorded for - the precondition of unmake holds at every call); next returns (position before move pos, move pos), prev returns (position before move pos-1, move pos-1); None exactly at the ends; the chain is only borrowed shared (type system)",
   assumes=STEP)
 
+# ---------------------------------------------------------------------------------------------
+# C09 SAN
+# ---------------------------------------------------------------------------------------------
+SN = "moves::san::verif_kani::"
+ISLEGAL = ["C01/legal/is-legal/%s/%s" % (_k, _c) for _s, _k in KINDS for _c in ("w", "b")]
+for _c in ("w", "b"):
+    K("C09/candidates/pieces/%s" % _c, ["C09", "C19"], MG + "c09_san_candidates_%s" % _c, ["movegen::MoveGenImpl::san_candidates"],
+      "for all well-formed boards (side %s, <= 16 men), every non-pawn piece kind and destination, and an arbitrary witness move w: san_candidates pushes w exactly once iff w is a pseudo-legal simple move of that piece to that destination" % _c,
+      assumes=TABLES, timeout=3000, mem_gb=16)
+    K("C09/candidates/pawn-captures/%s" % _c, ["C09", "C19"], MG + "c09_san_pawn_candidates_%s" % _c, ["movegen::MoveGenImpl::san_pawn_capture_candidates"],
+      "for all well-formed boards (side %s, <= 16 men, no back-rank pawns, consistent mark), all file pairs and promotions, and an arbitrary witness move w: pushes w exactly once iff w is a pseudo-legal pawn capture (ordinary, promoting or en passant) from that file to that adjacent file with that promotion" % _c,
+      assumes=["C15/pawns/advances"], timeout=3000, mem_gb=16)
+CANDS = ["C09/candidates/pieces/w", "C09/candidates/pieces/b", "C09/candidates/pawn-captures/w", "C09/candidates/pawn-captures/b", "C07/legal-filter"]
+K("C09/from-move/simple", ["C09"], SN + "c09_from_move_simple_disambiguation", ["san::Data::from_move", "san::AmbigDetector::push", "san::AmbigDetector::file", "san::AmbigDetector::rank"],
+  "for all boards, all non-pawn simple moves and EVERY candidate list the imported contract of san_candidates allows (<= 8 legal moves of that piece to that square, the move itself among them): the SAN data has the piece, the destination, the capture flag (destination occupied), and the MINIMAL origin hint: none if no other candidate; the file if no other candidate shares it; else the rank if no other shares that; else both",
+  assumes=CANDS)
+K("C09/from-move/pawns-castling", ["C09"], SN + "c09_from_move_pawns_castling", ["san::Data::from_move"],
+  "for all well-formed pawn / castling / null moves: straight pawn moves are written as destination (+promotion), diagonal ones incl. en passant as file x destination (+promotion), castlings as O-O / O-O-O")
+K("C09/into-move/simple", ["C09", "C02"], SN + "c09_into_move_simple", ["san::Data::into_move", "san::AmbigSearcher::new", "san::AmbigSearcher::push", "san::AmbigSearcher::get_move"],
+  "for all boards, all Simple SAN values (piece, optional file, optional rank, capture flag, destination) and every candidate list allowed by the contract: Ok(m) => m is a candidate agreeing with the hints and the only one; two or more agreeing candidates => Ambiguity naming two distinct ones; none => NotFound; capture sign on an empty destination => CaptureExpected",
+  assumes=CANDS)
+K("C09/into-move/pawn-capture-short", ["C09", "C02"], SN + "c09_into_move_pawn_capture_short", ["san::Data::into_move"],
+  "for all boards and candidate lists: the short pawn-capture form resolves to the unique candidate, reports Ambiguity for two or more, NotFound for none", assumes=CANDS)
+for _c in ("w", "b"):
+    K("C09/into-move/built/%s" % _c, ["C09", "C02", "C12"], SN + "c09_into_move_built_%s" % _c, ["san::Data::into_move"],
+      "for all well-formed boards (side %s) and ALL field values of PawnMove / PawnCapture / Castling SAN data, with Move::validate imported by contract: no panic (square arithmetic guarded); Ok(m) => m is legal by the rules, is a pawn move to the written destination from the written / same file with the written promotion (resp. a castling)" % _c,
+      assumes=ISLEGAL + ["C06/well-formed"], timeout=2400)
+K("C09/text/display-parse", ["C09", "C12"], SN + "c09_text_display_is_standard_and_parses_back", ["<san::Move as Display>::fmt", "san::Data::do_fmt", "san::Move::do_fmt", "<san::Move as FromStr>::from_str", "<san::Data as FromStr>::from_str"],
+  "for every SAN value from_move can produce (all variants x all field values x check marks none/+/#): the text is the standard algebraic notation (piece letter, hints, x, destination, =promotion, O-O / O-O-O, + / #) and parsing it gives the value back (hence distinct values get distinct texts)", timeout=2400)
+K("C12/san/from-str", ["C12", "C09", "C02"], SN + "c12_san_from_str_total_len7", ["<san::Move as FromStr>::from_str", "<san::Data as FromStr>::from_str"],
+  "for all UTF-8 strings of <= 7 bytes: SAN parsing returns a value or an error, never panics (slicing, from_utf8 unwraps, length arithmetic)", bounded="strings of <= 7 bytes", timeout=2400)
+
+# ---------------------------------------------------------------------------------------------
+# C08 FEN, C12 parsers (board.rs)
+# ---------------------------------------------------------------------------------------------
+K("C08/cells/one-rank", ["C08", "C12"], BD + "c08_cells_one_rank_roundtrip", ["board::format_cells", "board::parse_cells"],
+  "for all boards whose men stand on one (arbitrary) rank: format_cells == canonical FEN board field (reference run-length encoder), parse_cells of it gives the cells back, and an independent reader reads the same cells",
+  bounded="boards with at most one non-empty rank (all 13^8 contents, all 8 ranks); full boards: C08/cells/full-board (thorough)", timeout=2400)
+K("C08/cells/full-board", ["C08"], BD + "c08_cells_full_board_roundtrip", ["board::format_cells", "board::parse_cells"],
+  "for all 13^64 boards: format_cells == canonical FEN board field and parse_cells(format_cells(c)) == c", tier="thorough", timeout=7200, mem_gb=24)
+K("C08/record/tail", ["C08", "C12"], BD + "c08_record_tail_roundtrip", ["<RawBoard as Display>::fmt", "<RawBoard as FromStr>::from_str", "board::parse_ep_source", "RawBoard::ep_dest"],
+  "for both sides, all 16 rights sets, every rank-consistent en-passant mark (and none), all 65536 x 65536 counter values (board field fixed): the record has six space-separated fields in order, the en-passant field names the square behind the marked pawn, and from_str of the text returns the same raw board",
+  assumes=["C20/text/castling-display", "C20/text/coord-display"], timeout=2400)
+K("C12/fen/parse-cells", ["C12", "C08"], BD + "c12_parse_cells_total_len32", ["board::parse_cells"],
+  "for all UTF-8 strings of <= 32 bytes: parse_cells returns a value or an error, never panics (incl. its three closing assert_eq!); Ok iff the independent reader accepts (FEN board with '.' also denoting an empty square), with the same cells",
+  bounded="strings of <= 32 bytes (a full board field has up to 71)", timeout=3000, mem_gb=16)
+K("C12/fen/record-tail", ["C12", "C08"], BD + "c12_raw_from_str_tail_total", ["<RawBoard as FromStr>::from_str", "board::parse_ep_source"],
+  "for a fixed board field followed by ANY <= 20 bytes: from_str returns a value or an error, never panics; an accepted record formats to text that parses back to the same raw board, and its mark is on the rank appropriate to the side to move (parse-format-parse stability of the five trailing fields)",
+  bounded="<= 20 bytes after the board field", timeout=3000, mem_gb=16)
+
 
 def by_id():
     return {o["id"]: o for o in OBS}
